@@ -96,7 +96,7 @@ def make_history(seed):
         elif u < 0.62:
             op = rng.choice(["union", "union", "union_norenorm", "without", "intersect", "symmetric_difference"])
             if op.startswith("union"):
-                Do = rng.choice([D, D, D - 1, D + 1])
+                Do = rng.choice([D, D, D - 1, D + 1, D + 2, D + 3])
             else:
                 Do = D if rng.random() < 0.9 else rng.choice([D - 1, D + 1])
             ra, dec = near(rng, ra0, dec0, pixsize(D))
